@@ -72,7 +72,9 @@ def gen_directed(rng, syms):
     sym = rng.choice(syms)
     a = ('lit', Lit(str(rng.randrange(1, 999)), rng.choice([0, 2]), sym))
     tiny = ('bin', '/', ('lit', Lit(str(rng.randrange(1, 9)), 2, sym)), ('lit', Lit(str(rng.randrange(300, 99999)), 0, None)))
-    k = rng.randrange(14)
+    k = rng.randrange(17)
+    if k >= 14:
+        return gen_balcmp(rng)
     other = ('lit', Lit(str(rng.randrange(1, 99)), 0, rng.choice([s for s in syms if s != sym] or syms)))
     grown = ('bin', '*', a, ('lit', Lit('1001', 3, None)))           # a * 1.001: more decimals than displayed
     if k == 6:
@@ -118,6 +120,74 @@ def gen_directed(rng, syms):
     return ('bin', '/', ('bin', '+', a, ('lit', Lit('7', 0, rng.choice(syms)))), ('int', rng.choice([2, 3, 7, -4])))
 
 
+def gen_balcmp(rng):
+    """a balance of 2-5 commodities (written in a random order, so the table's insertion order is not the commodity
+    order; now and then with a plain-number entry, a negative entry, an entry that cancelled to an exact zero) ordered
+    against a COMMODITIZED amount - in the balance's first / a middle / its last commodity by name, or in a commodity it
+    does not hold -, against a plain number or an integer; all four operators, either side.  value_t::is_less_than walks
+    the balance in commodity order and stops at the first entry that decides: `false`, or the error "different
+    commodities" (since /repo 55e6d28; before, in hash-table order - finding F190)."""
+    n = rng.choice([2, 2, 3, 3, 4, 5])
+    held = rng.sample(SYMS, n)
+    parts = []
+    for sym in held:
+        dec = rng.choice([0, 0, 1, 2])
+        lit = ('lit', Lit(str(rng.randrange(1, 60)), dec, sym))
+        parts.append(('neg', lit) if rng.random() < 0.12 else lit)
+    if rng.random() < 0.15:
+        parts.append(rng.choice([('int', rng.randrange(1, 9)), ('lit', Lit(str(rng.randrange(1, 60)), rng.choice([0, 1]), None))]))
+    rng.shuffle(parts)
+    bal = parts[0]
+    for q in parts[1:]:
+        bal = ('bin', '+', bal, q)
+    if rng.random() < 0.12:
+        z = ('lit', Lit(str(rng.randrange(1, 60)), 0, rng.choice(SYMS)))
+        bal = ('bin', '+', ('bin', '+', bal, z), ('neg', z))      # a slot that stays behind, exactly zero (or none)
+    names = sorted(h[0] for h in held)
+    r = rng.random()
+    if r < 0.62:
+        pick = rng.choice([names[0], names[0], names[-1], rng.choice(names)])
+        sym = next(h for h in held if h[0] == pick)
+    elif r < 0.77:
+        sym = rng.choice([x for x in SYMS if x not in held] or held)
+    else:
+        sym = None
+    comp = rng.choice([q for q in parts if q[0] == 'lit'] or [('lit', Lit('5', 0, None))])[1]
+    shape = rng.randrange(5)
+    if shape == 0:
+        digits, dec = comp.digits, comp.decimals                              # equal to a component
+    elif shape == 1:
+        digits, dec = str(max(0, int(comp.digits) + rng.choice([-1, 1]))), comp.decimals      # next to it
+    elif shape == 2:
+        digits, dec = str(rng.randrange(100, 999)), 0                         # above every component
+    elif shape == 3:
+        digits, dec = '0', 0                                                  # below every positive component
+    else:
+        digits, dec = str(rng.randrange(1, 60)), rng.choice([0, 1, 2])
+    if sym is None and rng.random() < 0.3:
+        rhs = ('int', int(digits) if dec == 0 else rng.randrange(0, 60))
+    else:
+        rhs = ('lit', Lit(digits, dec, sym, braced=rng.random() < 0.2))
+    if rng.random() < 0.08:
+        rhs = ('neg', rhs)
+    op = rng.choice(['<', '>', '<=', '>='])
+    return ('bin', op, bal, rhs) if rng.random() < 0.65 else ('bin', op, rhs, bal)
+
+
+def is_balcmp(t):
+    """an ordering one side of which writes two or more commodities (a balance-typed operand)"""
+    return t[0] == 'bin' and t[1] in ('<', '>', '<=', '>=') and max(len(comms(t[2]) - {None}), len(comms(t[3]) - {None})) >= 2
+
+
+def error_free(t):
+    """sums, differences and negations of literals never raise an error (two commodities make a balance)"""
+    if t[0] in ('lit', 'int'):
+        return True
+    if t[0] == 'neg':
+        return error_free(t[1])
+    return t[0] == 'bin' and t[1] in ('+', '-') and error_free(t[2]) and error_free(t[3])
+
+
 def gen_tree(rng, depth, syms, big):
     if depth == 0 or rng.random() < 0.25:
         r = rng.random()
@@ -133,9 +203,11 @@ def gen_tree(rng, depth, syms, big):
     if r < 0.12:
         return ('abs', gen_tree(rng, depth - 1, syms, big))
     if r < 0.22 and depth <= 3:
-        # each side over ONE commodity (or plain numbers only): a comparison with a multi-entry balance walks the
-        # hash table and its outcome (value or error) depends on the iteration order in more ways than the model's
-        # two insertion orders cover
+        # mostly each side over ONE commodity (or plain numbers only), so that most comparisons have a value; one in five
+        # over all the tree's commodities: a multi-entry balance is walked in commodity order (value_t::is_less_than
+        # since /repo 55e6d28), which the model follows (Amount.v bal_lt_scalar) - value or error, both are compared
+        if rng.random() < 0.2:
+            return ('bin', rng.choice(CMPOPS), gen_tree(rng, depth - 1, syms, big), gen_tree(rng, depth - 1, syms, big))
         ls = [rng.choice(syms + [None])]
         rs = [rng.choice(syms + [None])]
         l = gen_tree(rng, depth - 1, [x for x in ls if x] or syms[:1], big)
@@ -456,7 +528,8 @@ def run(ctx, n_override=None):
     rng = ctx.rng
     res = lib.Result()
     res.rule = ('random operator trees (depth<=6, + - * / neg abs comparisons, to_int leaves) over decimal literals '
-                'of up to 40 digits / 0-20 decimals in 5 commodities or none, plus left-nested sums of 200-3000 posting '
+                'of up to 40 digits / 0-20 decimals in 5 commodities or none (orderings of multi-commodity balances against commoditized '
+                'amounts included: value or error, compared with the model), plus left-nested sums of 200-3000 posting '
                 'amounts through register totals; non-trivial = contains a binary operator and the exact-rational '
                 'oracle determines its value; distinct by rendered text')
     n = n_override or ctx.scale(6000, 120000)
@@ -472,6 +545,9 @@ def run(ctx, n_override=None):
             k = rng.choice([1, 1, 1, 1, 2, 2, 2, 3, 5])
             if rng.random() < 0.06:
                 trees.append(gen_directed(rng, rng.sample(SYMS, k)))
+                continue
+            if rng.random() < 0.03:
+                trees.append(gen_balcmp(rng))
                 continue
             trees.append(gen_tree(rng, rng.choice([1, 2, 2, 3, 3, 4, 5, 6]), rng.sample(SYMS, k), big))
         impl, model = eval_batch(ctx, journal, pool, trees, 'c')
@@ -491,9 +567,20 @@ def run(ctx, n_override=None):
             if len(res.samples) < 4 and size(t) > 4:
                 res.samples.append(dict(expr=txt, impl=ri, model=rm))
             if rm.startswith('ORDER-DEPENDENT'):
-                res.count('model:order-dependent')   # depends on unordered_map iteration order: not compared
+                # the model's two insertion orders of the balance table give different results: nothing the model
+                # computes may depend on that any more (Properties_C03.v balance_comparison_order_free, tree_addsub_order_free)
+                res.count('model:order-dependent')
+                res.disagreements.append(dict(name='C03/eval-order-dependent-model', case=txt, pool=pool, impl=ri, model=rm))
             elif kcanon(ri) != kcanon(rm):
                 res.disagreements.append(dict(name='C03/eval', case=txt, pool=pool, impl=ri, model=rm))
+            elif is_balcmp(t) and error_free(t[2]) and error_free(t[3]) and ri != rm:
+                # both operands evaluate without error, so the error (if any) is raised by the comparison itself:
+                # the error CLASS must agree too ("different commodities" from the walk / "cannot convert" from to_amount)
+                res.disagreements.append(dict(name='C03/balance-ordering-error-class', case=txt, pool=pool, impl=ri, model=rm))
+            if is_balcmp(t):
+                res.count('balance-ordering:%s' % ('error' if ri.startswith('E:') else 'value'))
+                if any(c is not None for c in (comms(t[2]) if len(comms(t[2]) - {None}) < 2 else comms(t[3]))):
+                    res.count('balance-ordering:against-commoditized:%s' % ('error' if ri.startswith('E:') else 'value'))
             if j:
                 s, r, jj, sig = minimal_failure(ctx, journal, pool, t)
                 res.violations.append(dict(key='eval:%s:%s' % (sig, jj[0]), desc='%s evaluates to %s, exact arithmetic requires %s' % (render(s), r, jj[1]),
